@@ -23,7 +23,7 @@ import (
 
 func TestMain(m *testing.M) {
 	harness.Property("C16",
-		"scripted master (MOTD, SID, ;PQ: <challenge>, prompt, then FQ after the slave's FF) against a real slave Session; challenge = digits (typical) or printable ASCII without edge spaces, 1..32 chars; password = any bytes without CR (0..24, the empty password included), in a third of the cases extended by a searched suffix so that the 30 bit value has fewer than 8 decimal digits (zero padding corner); 0..4 auxiliary addresses each with password / empty password / callback error; main callback ok / error / not registered; in an eighth of the ok cases 2..8 sessions of the process (challenge and passwords made distinct per session) run 1..12 exchanges each at the same time and every exchange is judged on its own, binary built with the race detector. Oracle = independent formulation of the algorithm (internal/ref/secure, pinned by the published vector). Non-trivial = at least one auxiliary address; distinct by hash of the case.",
+		"scripted master (MOTD, SID, ;PQ: <challenge>, prompt, then FQ after the slave's FF) against a real slave Session; challenge = digits (typical), printable ASCII without edge spaces, 1..32 chars, or (an eighth) a byte string with Latin-1 / high bytes and NULs inside; password = any bytes without CR (0..24, the empty password included), in a third of the cases extended by a searched suffix so that the 30 bit value has fewer than 8 decimal digits (zero padding corner); 0..4 auxiliary addresses each with password / empty password / callback error; main callback ok / error / not registered; in an eighth of the ok cases 2..8 sessions of the process (challenge and passwords made distinct per session) run 1..12 exchanges each at the same time and every exchange is judged on its own, binary built with the race detector. Oracle = independent formulation of the algorithm (internal/ref/secure, pinned by the published vector). Non-trivial = at least one auxiliary address; distinct by hash of the case.",
 		"the password-on-the-wire clause is only checked for passwords of >= 6 bytes that are not a substring of the legitimately expected output",
 	)
 	harness.Main(m)
@@ -60,6 +60,8 @@ type Case struct {
 	// each runs Rounds exchanges, every one is judged on its own; the binary is built with the race detector.
 	Parallel int `json:"parallel,omitempty"`
 	Rounds   int `json:"rounds,omitempty"`
+	// ChRaw: the challenge as bytes when it is not valid UTF-8 text (Latin-1 letters, an interior NUL); replaces Challenge
+	ChRaw []byte `json:"ch_raw,omitempty"`
 }
 
 func cyc(unit []byte, n int) []byte {
@@ -126,10 +128,13 @@ func run(c Case) (sig, msg string) {
 }
 
 func runOne(c Case) (sig, msg string) {
+	if len(c.ChRaw) > 0 {
+		c.Challenge = string(c.ChRaw)
+	}
 	c.Password = cyc(c.Password, c.PwLen)
 	if ch := cyc([]byte(c.Challenge), c.ChLen); len(ch) > 0 {
-		if ch[len(ch)-1] == ' ' {
-			ch[len(ch)-1] = '#' // the domain is challenges without edge spaces (the line reader trims them)
+		if ch[len(ch)-1] == ' ' || ch[len(ch)-1] == 0 {
+			ch[len(ch)-1] = '#' // the domain is challenges without edge spaces or NULs (the line reader trims them)
 		}
 		c.Challenge = string(ch)
 	}
@@ -300,6 +305,13 @@ func genCase(t *rapid.T) Case {
 	} else {
 		c.Challenge = rapid.StringMatching(`[!-~]([ -~]{0,30}[!-~])?`).Draw(t, "challenge")
 	}
+	if rapid.IntRange(0, 7).Draw(t, "ch_bytes") == 0 {
+		// a challenge is a byte string: Latin-1 / arbitrary high bytes and NULs inside it (no CR or LF, and a printable
+		// ASCII character at both ends, because the line reader trims blanks and NUL padding)
+		mid := rapid.SliceOfN(rapid.SampledFrom([]byte{0, 0x80, 0x85, 0xa0, 0xc3, 0xe5, 0xe6, 0xf8, 0xff, 'a', '7', ' '}), 1, 12).Draw(t, "ch_mid")
+		c.ChRaw = append(append([]byte{byte(rapid.IntRange('!', '~').Draw(t, "ch_first"))}, mid...), byte(rapid.IntRange('!', '~').Draw(t, "ch_last")))
+		c.Challenge = string(c.ChRaw)
+	}
 	c.Password = genPassword(t, "password")
 	if rapid.IntRange(0, 2).Draw(t, "small") == 0 {
 		c.Password = smallValueSuffix(c.Challenge, c.Password, rapid.IntRange(4, 7).Draw(t, "digits"))
@@ -386,6 +398,9 @@ func TestProp(t *testing.T) {
 			if r[0] == '0' {
 				harness.Label("response-has-leading-zero")
 			}
+		}
+		if len(c.ChRaw) > 0 {
+			harness.Label("challenge:bytes(not UTF-8 text / NUL inside)")
 		}
 		nonDigit := strings.Trim(c.Challenge, "0123456789") != ""
 		if nonDigit {
